@@ -302,6 +302,9 @@ def simk_script(sc, rng=None):
             add("EPOLL " + " ".join("c%d:IN" % c for c in seen))
         elif k in ("eof", "rst", "err"):
             add("%s c%d" % (k.upper(), st[1]))
+        elif k == "reply":
+            _, c, kk, key, value = st
+            add("REPLY c%d %d %s" % (c, kk, L.hexs(jtext(key) + b":" + jtext(value))))
         elif k == "advance":
             add("ADVANCE %d" % st[1])
         elif k == "wmode":
@@ -328,6 +331,10 @@ class ImplTrace:
         self.timers = [[] for _ in range(n)]     # ('arm', t, ns) | ('destroy', t)
         self.peers = [[] for _ in range(n)]      # (conn, addr)
         self.expired = [[] for _ in range(n)]
+        self.replies = {}
+        for step, text in log.replies.items():
+            if 0 <= step < len(smap):
+                self.replies[smap[step]] = text
         self.transport = {}
         for st in sc.steps:
             if st[0] == "connect":
@@ -411,6 +418,11 @@ def model_script(sc, tr):
                 else:
                     toks = jtokens(value)
                 lines.append("msg %d %s %d %d %s" % (c, sends if len(items) == 1 else "-", ixf, rtf, " ".join(toks) if toks else "!"))
+                opmap.append(si)
+        elif k == "reply":
+            if si in tr.replies:
+                toks = parse_with_cjson_semantics(tr.replies[si])
+                lines.append("msg %d %s %d %d %s" % (st[1], sends, ixf, rtf, " ".join(toks) if toks else "!"))
                 opmap.append(si)
         elif k in ("eof", "rst", "err"):
             lines.append("disc %d %s" % (st[1], sends))
